@@ -1,2 +1,185 @@
-(* C09 -- theorems are being added *)
-From ZK Require Import Laws.
+(* C09 -- encodings are canonical and strict.  For each codec: dec (enc x) = Ok x; dec b = Ok x -> enc x = b
+   (so no two octet strings decode to one object); wrong lengths / trailing bytes, identity where the drafts forbid it
+   and a zero exponent are rejected.  Point-level facts (off-curve, outside the subgroup) are the codec premises of
+   Laws; the scalar codec is proved for the concrete 32-byte big-endian encoding below r. *)
+From ZK Require Import Laws SignProofs Codec RealEnv RealScalars.
+
+Theorem C09_sk_codec :
+  forall (E : env) (LW : Laws E) x b,
+  sk_from_bytes E (sk_to_bytes E x) = Ok x /\
+  (sk_from_bytes E b = Ok x -> sk_to_bytes E x = b) /\
+  (length b <> 32%nat -> sk_from_bytes E b = Err).
+Proof. exact sk_codec. Qed.
+Check (C09_sk_codec :
+  forall (E : env) (LW : Laws E) x b,
+  sk_from_bytes E (sk_to_bytes E x) = Ok x /\
+  (sk_from_bytes E b = Ok x -> sk_to_bytes E x = b) /\
+  (length b <> 32%nat -> sk_from_bytes E b = Err)).
+Print Assumptions C09_sk_codec.
+
+Theorem C09_blind_codec :
+  forall (E : env) (LW : Laws E) x b,
+  blind_from_bytes E (f_to_be (SO E) x) = Ok x /\
+  (blind_from_bytes E b = Ok x -> f_to_be (SO E) x = b) /\
+  (length b <> 32%nat -> blind_from_bytes E b = Err).
+Proof. exact blind_codec. Qed.
+Check (C09_blind_codec :
+  forall (E : env) (LW : Laws E) x b,
+  blind_from_bytes E (f_to_be (SO E) x) = Ok x /\
+  (blind_from_bytes E b = Ok x -> f_to_be (SO E) x = b) /\
+  (length b <> 32%nat -> blind_from_bytes E b = Err)).
+Print Assumptions C09_blind_codec.
+
+Theorem C09_pk_codec :
+  forall (E : env) (LW : Laws E) pk b,
+  (pk <> g2_zero (PR E) -> pk_from_bytes E (pk_to_bytes E pk) = Ok pk) /\
+  (pk_from_bytes E b = Ok pk -> pk_to_bytes E pk = b /\ pk <> g2_zero (PR E)) /\
+  (length b <> 96%nat -> pk_from_bytes E b = Err) /\
+  pk_from_bytes E (pk_to_bytes E (g2_zero (PR E))) = Err.
+Proof. exact pk_codec. Qed.
+Check (C09_pk_codec :
+  forall (E : env) (LW : Laws E) pk b,
+  (pk <> g2_zero (PR E) -> pk_from_bytes E (pk_to_bytes E pk) = Ok pk) /\
+  (pk_from_bytes E b = Ok pk -> pk_to_bytes E pk = b /\ pk <> g2_zero (PR E)) /\
+  (length b <> 96%nat -> pk_from_bytes E b = Err) /\
+  pk_from_bytes E (pk_to_bytes E (g2_zero (PR E))) = Err).
+Print Assumptions C09_pk_codec.
+
+Theorem C09_pk_xy_codec :
+  forall (E : env) (LW : Laws E) pk x y,
+  (pk <> g2_zero (PR E) -> pk_from_xy E (fst (pk_to_xy E pk)) (snd (pk_to_xy E pk)) = Ok pk) /\
+  (pk_from_xy E x y = Ok pk -> pk_to_xy E pk = (x, y)).
+Proof. exact pk_xy_codec. Qed.
+Check (C09_pk_xy_codec :
+  forall (E : env) (LW : Laws E) pk x y,
+  (pk <> g2_zero (PR E) -> pk_from_xy E (fst (pk_to_xy E pk)) (snd (pk_to_xy E pk)) = Ok pk) /\
+  (pk_from_xy E x y = Ok pk -> pk_to_xy E pk = (x, y))).
+Print Assumptions C09_pk_xy_codec.
+
+Theorem C09_sig_codec_roundtrip :
+  forall (E : env) (LW : Laws E) s,
+  sig_A E s <> g1_zero (PR E) -> sig_e E s <> f0 (SO E) ->
+  sig_from_bytes E (sig_to_bytes E s) = Ok s /\ length (sig_to_bytes E s) = 80%nat.
+Proof. exact sig_codec_roundtrip. Qed.
+Check (C09_sig_codec_roundtrip :
+  forall (E : env) (LW : Laws E) s,
+  sig_A E s <> g1_zero (PR E) -> sig_e E s <> f0 (SO E) ->
+  sig_from_bytes E (sig_to_bytes E s) = Ok s /\ length (sig_to_bytes E s) = 80%nat).
+Print Assumptions C09_sig_codec_roundtrip.
+
+Theorem C09_sig_codec_canonical :
+  forall (E : env) (LW : Laws E) b s, sig_from_bytes E b = Ok s -> sig_to_bytes E s = b.
+Proof. exact sig_codec_canonical. Qed.
+Check (C09_sig_codec_canonical :
+  forall (E : env) (LW : Laws E) b s, sig_from_bytes E b = Ok s -> sig_to_bytes E s = b).
+Print Assumptions C09_sig_codec_canonical.
+
+Theorem C09_sig_strict :
+  forall (E : env) (LW : Laws E) b A e,
+  (length b <> 80%nat -> sig_from_bytes E b = Err) /\
+  sig_from_bytes E (sig_to_bytes E {| sig_A := g1_zero (PR E); sig_e := e |}) = Err /\
+  sig_from_bytes E (sig_to_bytes E {| sig_A := A; sig_e := f0 (SO E) |}) = Err.
+Proof. exact sig_strict. Qed.
+Check (C09_sig_strict :
+  forall (E : env) (LW : Laws E) b A e,
+  (length b <> 80%nat -> sig_from_bytes E b = Err) /\
+  sig_from_bytes E (sig_to_bytes E {| sig_A := g1_zero (PR E); sig_e := e |}) = Err /\
+  sig_from_bytes E (sig_to_bytes E {| sig_A := A; sig_e := f0 (SO E) |}) = Err).
+Print Assumptions C09_sig_strict.
+
+Theorem C09_pok_codec_roundtrip :
+  forall (E : env) (LW : Laws E) p, pok_points_ok E p ->
+  pok_from_bytes E (pok_to_bytes E p) = Ok p /\
+  length (pok_to_bytes E p) = (272 + 32 * length (p_m_cap E p))%nat.
+Proof. exact pok_codec_roundtrip. Qed.
+Check (C09_pok_codec_roundtrip :
+  forall (E : env) (LW : Laws E) p, pok_points_ok E p ->
+  pok_from_bytes E (pok_to_bytes E p) = Ok p /\
+  length (pok_to_bytes E p) = (272 + 32 * length (p_m_cap E p))%nat).
+Print Assumptions C09_pok_codec_roundtrip.
+
+Theorem C09_pok_codec_canonical :
+  forall (E : env) (LW : Laws E) b p,
+  pok_from_bytes E b = Ok p -> pok_to_bytes E p = b /\ pok_points_ok E p.
+Proof. exact pok_codec_canonical. Qed.
+Check (C09_pok_codec_canonical :
+  forall (E : env) (LW : Laws E) b p,
+  pok_from_bytes E b = Ok p -> pok_to_bytes E p = b /\ pok_points_ok E p).
+Print Assumptions C09_pok_codec_canonical.
+
+Theorem C09_pok_strict :
+  forall (E : env) b, (forall k, length b <> (272 + 32 * k)%nat) -> pok_from_bytes E b = Err.
+Proof. exact pok_strict. Qed.
+Check (C09_pok_strict :
+  forall (E : env) b, (forall k, length b <> (272 + 32 * k)%nat) -> pok_from_bytes E b = Err).
+Print Assumptions C09_pok_strict.
+
+Theorem C09_zkpok_codec_roundtrip :
+  forall (E : env) (LW : Laws E) z, zkpok_from_bytes E (zkpok_to_bytes E z) = Ok z.
+Proof. exact zkpok_codec_roundtrip. Qed.
+Check (C09_zkpok_codec_roundtrip :
+  forall (E : env) (LW : Laws E) z, zkpok_from_bytes E (zkpok_to_bytes E z) = Ok z).
+Print Assumptions C09_zkpok_codec_roundtrip.
+
+Theorem C09_zkpok_codec_canonical :
+  forall (E : env) (LW : Laws E) b z, zkpok_from_bytes E b = Ok z -> zkpok_to_bytes E z = b.
+Proof. exact zkpok_codec_canonical. Qed.
+Check (C09_zkpok_codec_canonical :
+  forall (E : env) (LW : Laws E) b z, zkpok_from_bytes E b = Ok z -> zkpok_to_bytes E z = b).
+Print Assumptions C09_zkpok_codec_canonical.
+
+Theorem C09_zkpok_strict :
+  forall (E : env) b, (forall k, length b <> (64 + 32 * k)%nat) -> zkpok_from_bytes E b = Err.
+Proof. exact zkpok_strict. Qed.
+Check (C09_zkpok_strict :
+  forall (E : env) b, (forall k, length b <> (64 + 32 * k)%nat) -> zkpok_from_bytes E b = Err).
+Print Assumptions C09_zkpok_strict.
+
+Theorem C09_commitment_codec_roundtrip :
+  forall (E : env) (LW : Laws E) x,
+  commitment_from_bytes E (commitment_to_bytes E x) = Ok x /\
+  length (commitment_to_bytes E x) = (112 + 32 * length (z_m_cap E (cm_proof E x)))%nat.
+Proof. exact commitment_codec_roundtrip. Qed.
+Check (C09_commitment_codec_roundtrip :
+  forall (E : env) (LW : Laws E) x,
+  commitment_from_bytes E (commitment_to_bytes E x) = Ok x /\
+  length (commitment_to_bytes E x) = (112 + 32 * length (z_m_cap E (cm_proof E x)))%nat).
+Print Assumptions C09_commitment_codec_roundtrip.
+
+Theorem C09_commitment_codec_canonical :
+  forall (E : env) (LW : Laws E) b x, commitment_from_bytes E b = Ok x -> commitment_to_bytes E x = b.
+Proof. exact commitment_codec_canonical. Qed.
+Check (C09_commitment_codec_canonical :
+  forall (E : env) (LW : Laws E) b x, commitment_from_bytes E b = Ok x -> commitment_to_bytes E x = b).
+Print Assumptions C09_commitment_codec_canonical.
+
+Theorem C09_commitment_strict_len :
+  forall (E : env) (LW : Laws E) b x,
+  commitment_from_bytes E b = Ok x -> exists k, length b = (112 + 32 * k)%nat.
+Proof. exact commitment_strict_len. Qed.
+Check (C09_commitment_strict_len :
+  forall (E : env) (LW : Laws E) b x,
+  commitment_from_bytes E b = Ok x -> exists k, length b = (112 + 32 * k)%nat).
+Print Assumptions C09_commitment_strict_len.
+
+(* the concrete scalar codec of the real environment (these discharge the scalar-codec premises of Laws) *)
+Theorem C09_fr_dec_enc :
+  forall x, (x < r_order)%N -> fr_of_be (be_bytes_nat 32 x) = Some x.
+Proof. exact fr_dec_enc. Qed.
+Check (C09_fr_dec_enc :
+  forall x, (x < r_order)%N -> fr_of_be (be_bytes_nat 32 x) = Some x).
+Print Assumptions C09_fr_dec_enc.
+
+Theorem C09_fr_enc_dec :
+  forall b x, fr_of_be b = Some x -> be_bytes_nat 32 x = b /\ (x < r_order)%N.
+Proof. exact fr_enc_dec. Qed.
+Check (C09_fr_enc_dec :
+  forall b x, fr_of_be b = Some x -> be_bytes_nat 32 x = b /\ (x < r_order)%N).
+Print Assumptions C09_fr_enc_dec.
+
+Theorem C09_fr_strict :
+  forall b, (length b <> 32%nat \/ (r_order <= os2ip b)%N) -> fr_of_be b = None.
+Proof. exact fr_strict. Qed.
+Check (C09_fr_strict :
+  forall b, (length b <> 32%nat \/ (r_order <= os2ip b)%N) -> fr_of_be b = None).
+Print Assumptions C09_fr_strict.
